@@ -129,8 +129,6 @@ AboveLatGap(p, a, b) == IF b = NONE THEN FALSE ELSE LatCmp(p, b) >= 0
 BelowLatGap(p, a, b) == IF a = NONE THEN FALSE ELSE LatCmp(p, a) <= 0
 InLatRange(p, gapB, gapT) == AboveLatGap(p, gapB[1], gapB[2]) /\ BelowLatGap(p, gapT[1], gapT[2])
 InBox(p, gapL, gapR, gapB, gapT) == InLatRange(p, gapB, gapT) /\ InLonRange(p, gapL, gapR)
-\* the box as the implementation sees a reference point it reports at longitude exactly +180
-\* (descriptive: used only to recognise one known defect)
 \* distance gaps from a centre c: a the farthest class inside, b the nearest class outside (or NONE)
 IsDistGap(P, c, a, b) == /\ a # NONE
                          /\ (b # NONE => NearCmp(c, a, b) > 0)
